@@ -50,6 +50,10 @@
 (*                                back with wrong fields or an error       *)
 (*   back-nil-pointer-panics      a struct holding a nil pointer or nil    *)
 (*                                interface cannot be handed back          *)
+(*   method-receiver-stale-after-write  a method call on a record that has *)
+(*                                a Go object attached does not convert it *)
+(*                                again: it runs on the contents the       *)
+(*                                record had at its last conversion        *)
 (*   back-cyclic-value-overflows  a Go value that reaches itself kills the *)
 (*                                host process when it is handed back      *)
 (*                                (observable only once the conversion of  *)
@@ -155,7 +159,8 @@ Fold(c, i, acc, first) ==
          IN Fold(c, i + 1, Worst(acc, v), IF first = 0 /\ v # "ok" THEN i ELSE first)
 
 (* kind "hist": a history on ONE record object -- steps <<"togo">>, <<"self">> ((_method r Self:): the record *)
-(* is the receiver, converted implicitly), <<"set", j, key, value>> ((hset nj key: value)); res[i] is the     *)
+(* is the receiver, converted implicitly), <<"echo">> ((_method host EchoX: r): the record is an argument),    *)
+(* <<"set", j, key, value>> ((hset nj key: value)); res[i] is the                                              *)
 (* outcome of step i.  Every conversion must give what the same step gives on a fresh record with the        *)
 (* contents the record has at that moment: Fill of the current graph -- whatever happened to the object      *)
 (* before (a conversion that failed must not leave anything behind).                                         *)
@@ -164,20 +169,35 @@ SetPair(G, j, key, v) ==
         hit == {i \in 1..Len(ps) : ps[i][1] = key}
     IN [G EXCEPT ![j][2] = IF hit = {} THEN Append(ps, <<key, v>>)
                            ELSE [i \in 1..Len(ps) |-> IF i \in hit THEN <<key, v>> ELSE ps[i]]]
-RECURSIVE Hist(_, _, _, _, _)
-Hist(c, G, i, acc, first) ==
+(* Gs: the contents the record had when the Go object now attached to it was made (<<>>: no object is   *)
+(* attached).  Named deviation method-receiver-stale-after-write: (_method r Self:) converts the         *)
+(* receiver only when no Go object is attached to it, so after a successful conversion and a write to   *)
+(* the record (or to a record below it) the method runs on the object of the OLD contents; exactly this *)
+(* is explained: an object is attached, the contents changed since, and the step's outcome is the one   *)
+(* the old contents require.  (togo r) converts again and refreshes the object; a record passed as an   *)
+(* ARGUMENT (step "echo") is always converted afresh and is judged without the deviation.               *)
+StaleDev == "method-receiver-stale-after-write"
+RECURSIVE Hist(_, _, _, _, _, _)
+Hist(c, G, Gs, i, acc, first) ==
     IF i > Len(c.steps) THEN <<acc, first>>
     ELSE LET st == c.steps[i]
              out == c.res[i]
-             v == CASE st[1] = "togo" -> FwdVerdict(G, c.root, out)
-                    [] st[1] = "self" -> EchoVerdict(G, c.root, out)
-                    [] OTHER -> (IF out[1] = "set" THEN "ok" ELSE "bad")
+             fresh == CASE st[1] = "togo" -> FwdVerdict(G, c.root, out)
+                        [] st[1] \in {"self", "echo"} -> EchoVerdict(G, c.root, out)
+                        [] OTHER -> (IF out[1] = "set" THEN "ok" ELSE "bad")
+             stale == /\ st[1] = "self" /\ fresh = "bad" /\ DevOn(StaleDev)
+                      /\ Gs # <<>> /\ Gs # G /\ EchoVerdict(Gs, c.root, out) # "bad"
+             v == IF stale THEN "known:" \o StaleDev ELSE fresh
              G2 == IF st[1] = "set" THEN SetPair(G, st[2], st[3], st[4]) ELSE G
-         IN Hist(c, G2, i + 1, Worst(acc, v), IF first = 0 /\ v # "ok" THEN i ELSE first)
+             converted == out[1] \in {"ok", "reterr"}          \* a Go object was made from the current contents
+             Gs2 == IF st[1] = "togo" /\ converted THEN G
+                    ELSE IF st[1] = "self" /\ converted /\ ~stale THEN G
+                    ELSE Gs
+         IN Hist(c, G2, Gs2, i + 1, Worst(acc, v), IF first = 0 /\ v # "ok" THEN i ELSE first)
 
 CaseVerdict(c) ==
     IF c.kind = "types" THEN (IF TypesOk(c) THEN <<"ok", 0>> ELSE <<"bad", 0>>)
-    ELSE IF c.kind = "hist" THEN (IF Len(c.res) = Len(c.steps) THEN Hist(c, c.g, 1, "ok", 0) ELSE <<"bad", 0>>)
+    ELSE IF c.kind = "hist" THEN (IF Len(c.res) = Len(c.steps) THEN Hist(c, c.g, <<>>, 1, "ok", 0) ELSE <<"bad", 0>>)
     ELSE Fold(c, 1, "ok", 0)
 
 TInit == ci \in 1..Len(Cases) /\ verdict = "run"
